@@ -415,6 +415,12 @@ func (s *Spec) load(path string, prefix string) error {
 					sf.GoBody = strings.TrimSpace(body[i+3:])
 				}
 			} else {
+				// `... go: expr` after the body gives the replay a Go counterpart of a spec fn it cannot
+				// print itself (recursive definitions)
+				if i := strings.Index(body, " go: "); i >= 0 {
+					sf.GoBody = strings.TrimSpace(body[i+5:])
+					body = strings.TrimSpace(body[:i])
+				}
 				c, err := s.mkClause(body, path, ln)
 				if err != nil {
 					return err
